@@ -1,12 +1,203 @@
 /-
   UnytModel.Ops.C11 — opcodes of the C11 model (prefix `c11.`).
+
+  Wire formats
+    unit    :=  <scale bits> <offset bits> <dim> <coeff bits> <factors> <canon 0|1>
+    reg     :=  <extra rows> <removed keys> <noncanon keys> <usys>
+                extra   = `name&scalebits&offsetbits&dim&0|1` joined by `|` — rows that differ from / are
+                          absent in the default table;  removed = default keys that are absent (`,`);
+                          noncanon = keys whose dimension object is not the singleton (`,`; `*` = all)
+    obj     :=  <dtype> <isQuantity 0|1> <vals: bits joined by ,> unit reg          (13 fields)
+    expr    :=  `coeffbits@sym:p/q;…`
+    op      :=  unary <f> | binaryQ <f> <expr> <vbits> | binarySelf <f> | mulUnit <expr> | powUnit <p/q>
+                | inBase <sys|-> | toUnit <expr>
+
+  c11.routes                      → ok <route>=<17 flags 0/1> …          (the regenerated table, for the dump check)
+  c11.restore <route> obj         → ok obj | err <Name>                  (`Persist.restore` with the route's regenerated cfg)
+  c11.guard   <route> obj         → ok 0|1                               (`Persist.restoreGuard`)
+  c11.follow  obj op              → ok <vals> <unit|none> | err <Name>   (`Persist.follow`)
+  c11.prog    obj <n> op…  op     → same, `Persist.runProg` (n object-returning steps, then the last op)
 -/
 import UnytModel.DriverBase
+import UnytModel.SystemTables
+import UnytModel.Persist
+import UnytModel.Generated.PersistRoutes
 
 namespace Unyt
+open Unyt.Persist
 
-def opsC11 : Handler := fun _st fields =>
+namespace C11Wire
+
+def flagsStr (c : RouteCfg) : String :=
+  let b (x : Bool) := if x then "1" else "0"
+  String.join [b c.keepsValues, b c.keepsDtype, b c.keepsClass, b c.unitSame, b c.unitByDisplayStr,
+    b c.unitDataCarried, b c.unitCanon.onCanon, b c.unitCanon.onNon, b c.regSame, b c.keepsAdded,
+    b c.keepsModifiedDefault, b c.keepsRemoved, b c.userRowCanon.onCanon, b c.userRowCanon.onNon,
+    b c.dfltRowCanon.onCanon, b c.dfltRowCanon.onNon, b c.keepsUnitSystem]
+
+def parseExpr (s : String) : Option (UExpr Float) :=
+  match s.splitOn "@" with
+  | [c, f] => do
+    let c ← fb c
+    let f ← Factors.parse f
+    some ⟨c, f⟩
+  | _ => none
+
+def parseRows (s : String) : Option (Lut Float) :=
+  if s.isEmpty then some [] else
+  (s.splitOn "|").mapM fun item =>
+    match item.splitOn "&" with
+    | [n, sc, off, d, p] => do
+      let sc ← fb sc
+      let off ← fb off
+      let d ← Dim.parse d
+      let p ← parseBool p
+      some (n, { scale := sc, dim := d, offset := off, prefixable := p })
+    | _ => none
+
+def keys (s : String) : List String := if s.isEmpty then [] else s.splitOn ","
+
+/-- the registry table: the default rows (minus `removed`, with overrides in place), then the rows
+    that are not default keys -/
+def buildRows (dflt : Lut Float) (extra : Lut Float) (removed : List String) (non : String) : PLut Float :=
+  let isNon (k : String) : Bool := non == "*" || (keys non).contains k
+  let base : PLut Float := (dflt.filter fun p => !removed.contains p.1).map fun p =>
+    match extra.find? p.1 with
+    | some e => (p.1, ⟨e, !isNon p.1⟩)
+    | none => (p.1, ⟨p.2, !isNon p.1⟩)
+  let added : PLut Float := (extra.filter fun p => !(dflt.contains p.1)).map fun p => (p.1, ⟨p.2, !isNon p.1⟩)
+  base ++ added
+
+def entryEq (a b : Entry Float) : Bool :=
+  a.scale.toBits == b.scale.toBits && a.offset.toBits == b.offset.toBits && a.dim == b.dim
+    && a.prefixable == b.prefixable
+
+def rowStr (k : String) (e : Entry Float) : String :=
+  s!"{k}&{bitsStr e.scale}&{bitsStr e.offset}&{e.dim.str}&{if e.prefixable then 1 else 0}"
+
+def regStr (dflt : Lut Float) (R : PReg Float) : String :=
+  let extra := R.rows.filter fun p =>
+    match dflt.find? p.1 with
+    | some d => !(entryEq d p.2.e)
+    | none => true
+  let removed := (dflt.filter fun p => !(R.rows.hasKey p.1)).map (·.1)
+  let non := (R.rows.filter fun p => !p.2.canon).map (·.1)
+  let nonS := if !R.rows.isEmpty && non.length == R.rows.length then "*" else ",".intercalate non
+  "\t".intercalate ["|".intercalate (extra.map fun p => rowStr p.1 p.2.e), ",".intercalate removed, nonS, R.usys]
+
+def unitStr (u : UnitV Float) : String :=
+  s!"{bitsStr u.scale}\t{bitsStr u.offset}\t{u.dim.str}\t{bitsStr u.expr.coeff}\t{Factors.str (UExpr.normF u.expr.factors)}\t{if u.canon then 1 else 0}"
+
+def valsStr (v : List Float) : String := ",".intercalate (v.map bitsStr)
+
+def parseVals (s : String) : Option (List Float) :=
+  if s.isEmpty then some [] else (s.splitOn ",").mapM fb
+
+def objStr (dflt : Lut Float) (x : PObj Float) : String :=
+  s!"{x.dtype}\t{if x.isQuantity then 1 else 0}\t{valsStr x.vals}\t{unitStr x.unit}\t{regStr dflt x.reg}"
+
+abbrev P (α : Type) := List String → Option (α × List String)
+
+def pObj (dflt : Lut Float) : P (PObj Float)
+  | dt :: q :: vals :: sc :: off :: dim :: co :: fac :: cn :: extra :: removed :: non :: usys :: rest => do
+    let q ← parseBool q
+    let vals ← parseVals vals
+    let u ← parseUnitV sc off dim co fac
+    let cn ← parseBool cn
+    let extra ← parseRows extra
+    some ({ vals := vals, dtype := dt, isQuantity := q, unit := { u with canon := cn },
+            reg := ⟨buildRows dflt extra (keys removed) non, usys⟩ }, rest)
+  | _ => none
+
+def pOp : P (FollowOp Float)
+  | "unary" :: f :: rest => some (.unary f, rest)
+  | "binaryQ" :: f :: e :: v :: rest => do
+    let e ← parseExpr e
+    let v ← fb v
+    some (.binaryQ f e v, rest)
+  | "binarySelf" :: f :: rest => some (.binarySelf f, rest)
+  | "mulUnit" :: e :: rest => (parseExpr e).map fun e => (.mulUnit e, rest)
+  | "powUnit" :: p :: rest => (parseRat p).map fun p => (.powUnit p, rest)
+  | "inBase" :: s :: rest => some (.inBase (if s == "-" then none else some s), rest)
+  | "toUnit" :: e :: rest => (parseExpr e).map fun e => (.toUnit e, rest)
+  | _ => none
+
+def pOps : Nat → List String → Option (List (FollowOp Float) × List String)
+  | 0, rest => some ([], rest)
+  | n + 1, rest =>
+    match pOp rest with
+    | some (o, rest') => (pOps n rest').map fun r => (o :: r.1, r.2)
+    | none => none
+
+/-- the numeric kernels the battery uses (the model is parametric in them) -/
+def kern (f : String) (x : Float) : Float :=
+  match f with
+  | "sin" => Float.sin x | "cos" => Float.cos x | "tan" => Float.tan x
+  | "arcsin" => Float.asin x | "arccos" => Float.acos x | "arctan" => Float.atan x
+  | "sinh" => Float.sinh x | "cosh" => Float.cosh x | "tanh" => Float.tanh x
+  | "sqrt" => Float.sqrt x | "negative" => -x | "absolute" => Float.abs x
+  | "exp" => Float.exp x | "log" => Float.log x
+  | _ => x
+
+def fctx (st : DriverState) : FCtx Float :=
+  { T := Ufunc.Tables.generated, pre := st.pre, ueq := UnitV.eqFloat, simp := fun u => (1, u),
+    em := defaultEm Float, systems := builtinSystems Float, kern := kern }
+
+def resStr (r : Except Err (Res Float)) : String :=
+  match r with
+  | .error e => s!"err\t{e.str}"
+  | .ok r =>
+    match r.unit with
+    | some u => s!"ok\t{valsStr r.vals}\t{unitStr u}"
+    | none => s!"ok\t{valsStr r.vals}\tnone"
+
+end C11Wire
+
+open C11Wire in
+def opsC11 : Handler := fun st fields =>
+  let dflt := st.luts[0]!
   match fields with
+  | ["c11.routes"] =>
+    some (st, "ok\t" ++ "\t".intercalate (Generated.persistRoutes.map fun p => s!"{p.1.name}={flagsStr p.2}")
+      ++ s!"\tprotocolsAgree={if Generated.pickleProtocolsAgree then 1 else 0}"
+      ++ s!"\tlowRefusedBySympy={if Generated.pickleLowProtocolsRefusedBySympy then 1 else 0}")
+  | "c11.restore" :: route :: rest =>
+    match Route.ofName route, pObj dflt rest with
+    | some r, some (x, []) =>
+      match Generated.persistRoutes.get r with
+      | none => some (st, "err\tno-such-route")
+      | some cfg =>
+        match restore cfg st.pre dflt x with
+        | .ok y => some (st, "ok\t" ++ objStr dflt y)
+        | .error e => some (st, s!"err\t{e.str}")
+    | _, _ => none
+  | "c11.guard" :: route :: rest =>
+    match Route.ofName route, pObj dflt rest with
+    | some r, some (x, []) =>
+      match Generated.persistRoutes.get r with
+      | none => some (st, "err\tno-such-route")
+      | some cfg => some (st, s!"ok\t{if restoreGuard EqTests.float cfg st.pre dflt x then 1 else 0}")
+    | _, _ => none
+  | "c11.follow" :: rest =>
+    match pObj dflt rest with
+    | some (x, rest') =>
+      match pOp rest' with
+      | some (op, []) => some (st, resStr (follow (fctx st) op x))
+      | _ => none
+    | none => none
+  | "c11.prog" :: rest =>
+    match pObj dflt rest with
+    | some (x, n :: rest') =>
+      match n.toNat? with
+      | some n =>
+        match pOps n rest' with
+        | some (ops, rest'') =>
+          match pOp rest'' with
+          | some (last, []) => some (st, resStr (runProg (fctx st) ops last x))
+          | _ => none
+        | none => none
+      | none => none
+    | _ => none
   | _ => none
 
 end Unyt
